@@ -41,7 +41,7 @@ const fn ov(indent: usize, quote_all: bool, yaml_12: bool, prefer_block: bool, w
 /// value in at least one vector, and the combinations that select different emitter paths
 /// (auto-fold with wrap 0, indentation indicator > 9 with indent 8, quoting only, YAML 1.2
 /// heuristics) are all present.
-pub const CURATED: [Ov; 12] = [
+pub const CURATED: [Ov; 13] = [
     DEFAULT_OV,
     ov(1, false, false, true, 80, 32, false, true),
     ov(4, false, false, true, 80, 32, false, true),
@@ -54,6 +54,7 @@ pub const CURATED: [Ov; 12] = [
     ov(4, false, false, true, 8, 32, true, true),
     ov(1, false, true, true, 0, 0, true, true),
     ov(8, true, true, false, 8, 0, true, false),
+    ov(3, false, false, true, 0, 32, true, true),
 ];
 
 impl Ov {
@@ -91,10 +92,32 @@ impl Ov {
             braces: b("empty_as_braces", true),
         }
     }
-    /// Uniform draw from the full DESIGN grid (4*2*2*2*3*2*2*2 = 768 vectors).
+    /// Number of vectors in the full grid: indent_step {1,2,3,4,8} x quote_all x yaml_12 x
+    /// prefer_block_scalars x folded_wrap_chars {0,8,80} x min_fold_chars {0,32} x
+    /// compact_list_indent x empty_as_braces = 5*2*2*2*3*2*2*2 = 960.
+    pub const GRID: usize = 960;
+    /// i-th vector of the full grid.
+    pub fn grid(mut i: usize) -> Ov {
+        let mut take = |n: usize| {
+            let r = i % n;
+            i /= n;
+            r
+        };
+        Ov {
+            indent: [1usize, 2, 3, 4, 8][take(5)],
+            quote_all: take(2) == 1,
+            yaml_12: take(2) == 1,
+            prefer_block: take(2) == 0,
+            wrap: [80usize, 0, 8][take(3)],
+            min_fold: [32usize, 0][take(2)],
+            compact: take(2) == 1,
+            braces: take(2) == 0,
+        }
+    }
+    /// Uniform draw from the full grid.
     pub fn random(rng: &mut Rng) -> Ov {
         Ov {
-            indent: *rng.pick(&[1usize, 2, 4, 8]),
+            indent: *rng.pick(&[1usize, 2, 3, 4, 8]),
             quote_all: rng.chance(1, 5),
             yaml_12: rng.chance(1, 4),
             prefer_block: !rng.chance(1, 4),
@@ -140,10 +163,85 @@ pub enum Pos {
     TupleStructField,
     SeqUnderMapKey,
     FlowNested,
+    SeqInSeqFirst,
+    SeqInSeqItem,
+    SeqInSeqInMap,
+    ComplexKeyValue,
+    ComplexKeyMember,
+    ComplexMapKeyValue,
+    TupleStructInMap,
+    TupleStructInSeq,
+    TupleVariantInSeq,
+    TupleVariantInMap,
+    StructVariantInSeq,
+    StructVariantInMap,
+    VariantInVariant,
+    VariantInFlow,
+    TupleVariantInFlow,
+    StructVariantInFlow,
+    FlowSeqInBlock,
+    NestedMapKey,
+    NestedMapKeyInSeq,
+    DashSecondKey,
+    MapSecondKey,
 }
 
 impl Pos {
-    pub const ALL: [Pos; 17] = [
+    pub const ALL: [Pos; 38] = [
+        Pos::Root,
+        Pos::SeqItem,
+        Pos::MapValue,
+        Pos::MapKey,
+        Pos::DashFirstKey,
+        Pos::NestedMapInSeqValue,
+        Pos::FlowSeq,
+        Pos::FlowMapValue,
+        Pos::FlowMapKey,
+        Pos::VariantRoot,
+        Pos::VariantInSeq,
+        Pos::VariantInMap,
+        Pos::StructVariantField,
+        Pos::TupleVariantField,
+        Pos::TupleStructField,
+        Pos::SeqUnderMapKey,
+        Pos::FlowNested,
+        Pos::SeqInSeqFirst,
+        Pos::SeqInSeqItem,
+        Pos::SeqInSeqInMap,
+        Pos::ComplexKeyValue,
+        Pos::ComplexKeyMember,
+        Pos::ComplexMapKeyValue,
+        Pos::TupleStructInMap,
+        Pos::TupleStructInSeq,
+        Pos::TupleVariantInSeq,
+        Pos::TupleVariantInMap,
+        Pos::StructVariantInSeq,
+        Pos::StructVariantInMap,
+        Pos::VariantInVariant,
+        Pos::VariantInFlow,
+        Pos::TupleVariantInFlow,
+        Pos::StructVariantInFlow,
+        Pos::FlowSeqInBlock,
+        Pos::NestedMapKey,
+        Pos::NestedMapKeyInSeq,
+        Pos::DashSecondKey,
+        Pos::MapSecondKey,
+    ];
+    /// The eight positions named in DESIGN §5 C12 (+ flow key, which DESIGN folds into "inside FlowMap").
+    pub const CORE: [Pos; 9] = [
+        Pos::Root,
+        Pos::SeqItem,
+        Pos::MapValue,
+        Pos::MapKey,
+        Pos::DashFirstKey,
+        Pos::NestedMapInSeqValue,
+        Pos::FlowSeq,
+        Pos::FlowMapValue,
+        Pos::VariantRoot,
+    ];
+    /// The 17 positions of the first version of this check (kept as a cheaper set for the widest
+    /// string spaces).
+    pub const BASE: [Pos; 17] = [
         Pos::Root,
         Pos::SeqItem,
         Pos::MapValue,
@@ -162,17 +260,29 @@ impl Pos {
         Pos::SeqUnderMapKey,
         Pos::FlowNested,
     ];
-    /// The eight positions named in DESIGN §5 C12 (+ flow key, which DESIGN folds into "inside FlowMap").
-    pub const CORE: [Pos; 9] = [
-        Pos::Root,
-        Pos::SeqItem,
-        Pos::MapValue,
-        Pos::MapKey,
-        Pos::DashFirstKey,
-        Pos::NestedMapInSeqValue,
-        Pos::FlowSeq,
-        Pos::FlowMapValue,
-        Pos::VariantRoot,
+    /// Positions that exist because of the layout code (columns, dashes, `? ` keys, nesting).
+    pub const LAYOUT: [Pos; 21] = [
+        Pos::SeqInSeqFirst,
+        Pos::SeqInSeqItem,
+        Pos::SeqInSeqInMap,
+        Pos::ComplexKeyValue,
+        Pos::ComplexKeyMember,
+        Pos::ComplexMapKeyValue,
+        Pos::TupleStructInMap,
+        Pos::TupleStructInSeq,
+        Pos::TupleVariantInSeq,
+        Pos::TupleVariantInMap,
+        Pos::StructVariantInSeq,
+        Pos::StructVariantInMap,
+        Pos::VariantInVariant,
+        Pos::VariantInFlow,
+        Pos::TupleVariantInFlow,
+        Pos::StructVariantInFlow,
+        Pos::FlowSeqInBlock,
+        Pos::NestedMapKey,
+        Pos::NestedMapKeyInSeq,
+        Pos::DashSecondKey,
+        Pos::MapSecondKey,
     ];
     pub fn name(self) -> &'static str {
         match self {
@@ -193,16 +303,51 @@ impl Pos {
             Pos::TupleStructField => "tuple-struct-field",
             Pos::SeqUnderMapKey => "seq-under-map-key",
             Pos::FlowNested => "flow-map-in-flow-seq-value",
+            Pos::SeqInSeqFirst => "first-item-of-seq-in-seq",
+            Pos::SeqInSeqItem => "item-of-seq-in-seq",
+            Pos::SeqInSeqInMap => "item-of-seq-in-seq-under-map-key",
+            Pos::ComplexKeyValue => "value-under-complex-seq-key",
+            Pos::ComplexKeyMember => "item-inside-complex-seq-key",
+            Pos::ComplexMapKeyValue => "value-under-complex-map-key",
+            Pos::TupleStructInMap => "tuple-struct-field-under-map-key",
+            Pos::TupleStructInSeq => "tuple-struct-field-in-seq",
+            Pos::TupleVariantInSeq => "tuple-variant-field-in-seq",
+            Pos::TupleVariantInMap => "tuple-variant-field-under-map-key",
+            Pos::StructVariantInSeq => "struct-variant-field-in-seq",
+            Pos::StructVariantInMap => "struct-variant-field-under-map-key",
+            Pos::VariantInVariant => "newtype-variant-in-newtype-variant",
+            Pos::VariantInFlow => "newtype-variant-in-flow-seq",
+            Pos::TupleVariantInFlow => "tuple-variant-field-in-flow-seq",
+            Pos::StructVariantInFlow => "struct-variant-field-in-flow-map",
+            Pos::FlowSeqInBlock => "flow-seq-item-under-key-of-map-in-block-seq",
+            Pos::NestedMapKey => "key-of-nested-map",
+            Pos::NestedMapKeyInSeq => "first-key-after-dash-under-map-key",
+            Pos::DashSecondKey => "second-key-of-map-after-dash",
+            Pos::MapSecondKey => "second-key-of-root-map",
+
         }
     }
     pub fn from_name(s: &str) -> Option<Pos> {
         Pos::ALL.iter().copied().find(|p| p.name() == s)
     }
     pub fn is_key(self) -> bool {
-        matches!(self, Pos::MapKey | Pos::DashFirstKey | Pos::FlowMapKey)
+        matches!(
+            self,
+            Pos::MapKey | Pos::DashFirstKey | Pos::FlowMapKey | Pos::NestedMapKey | Pos::NestedMapKeyInSeq | Pos::DashSecondKey | Pos::MapSecondKey
+        )
     }
     pub fn is_flow(self) -> bool {
-        matches!(self, Pos::FlowSeq | Pos::FlowMapValue | Pos::FlowMapKey | Pos::FlowNested)
+        matches!(
+            self,
+            Pos::FlowSeq
+                | Pos::FlowMapValue
+                | Pos::FlowMapKey
+                | Pos::FlowNested
+                | Pos::VariantInFlow
+                | Pos::TupleVariantInFlow
+                | Pos::StructVariantInFlow
+                | Pos::FlowSeqInBlock
+        )
     }
     /// coarse position class used in fallback signatures
     pub fn kind(self) -> &'static str {
@@ -280,4 +425,48 @@ pub struct Ts<T>(pub T, pub u8);
 pub struct Outer<T> {
     pub o: Vec<MapVal<T>>,
     pub t: u8,
+}
+
+/// The mapping `{gk: 5, <T>: 6}`: puts a scalar into the position of a *second* key (a key that
+/// starts a line of its own, aligned under the first one).
+pub const GUARD_KEY: &str = "gk";
+#[derive(Clone, Debug, PartialEq)]
+pub struct KeyAfter<T>(pub T);
+impl<T: Serialize> Serialize for KeyAfter<T> {
+    fn serialize<S: Serializer>(&self, s: S) -> Result<S::Ok, S::Error> {
+        let mut m = s.serialize_map(Some(2))?;
+        m.serialize_entry(GUARD_KEY, &5u8)?;
+        m.serialize_entry(&self.0, &6u8)?;
+        m.end()
+    }
+}
+struct KeyAfterVisitor<T>(PhantomData<T>);
+impl<'de, T: Deserialize<'de>> Visitor<'de> for KeyAfterVisitor<T> {
+    type Value = KeyAfter<T>;
+    fn expecting(&self, f: &mut fmt::Formatter) -> fmt::Result {
+        f.write_str("a mapping {gk: 5, <key>: 6}")
+    }
+    fn visit_map<A: MapAccess<'de>>(self, mut a: A) -> Result<KeyAfter<T>, A::Error> {
+        use serde::de::Error;
+        match a.next_key::<String>()? {
+            Some(k) if k == GUARD_KEY => {}
+            other => return Err(A::Error::custom(format!("first key is {other:?}, expected gk"))),
+        }
+        if a.next_value::<u8>()? != 5 {
+            return Err(A::Error::custom("value of gk is not 5"));
+        }
+        let Some(k) = a.next_key::<T>()? else { return Err(A::Error::custom("second key missing")) };
+        if a.next_value::<u8>()? != 6 {
+            return Err(A::Error::custom("value of the second key is not 6"));
+        }
+        if a.next_key::<serde::de::IgnoredAny>()?.is_some() {
+            return Err(A::Error::custom("surplus key"));
+        }
+        Ok(KeyAfter(k))
+    }
+}
+impl<'de, T: Deserialize<'de>> Deserialize<'de> for KeyAfter<T> {
+    fn deserialize<D: Deserializer<'de>>(d: D) -> Result<Self, D::Error> {
+        d.deserialize_map(KeyAfterVisitor(PhantomData))
+    }
 }
